@@ -89,7 +89,8 @@ def search(item, seed):
     rnd = random.Random(seed * 7 + 2)
     for _ in range(budget(60)):
         case = ap.gen_scene(rnd)
-        case["thrs"] = [0.0, 0.3, 0.9, 1.7, 3.0]
+        # thresholds as a configuration file spells them: floats and whole numbers mixed
+        case["thrs"] = rnd.choice([[0.0, 0.3, 0.9, 1.7, 3.0], [0, 0.3, 1, 1.7, 2, 3.0], [0.5, 1, 2, 3]])
         try:
             why = check_scene(case)
         except Exception as ex:
@@ -98,7 +99,7 @@ def search(item, seed):
             return dict(function="scene", input=case, observed=why)
     for _ in range(budget(40)):
         base = ap.gen_scene(rnd)
-        case = dict(targets=base["targets"], crit=base["crit"], rows=[rnd.choice([1.7, 3.0]), rnd.choice([0.3, 0.9])],
+        case = dict(targets=base["targets"], crit=base["crit"], rows=[rnd.choice([1.7, 3.0, 2, 3]), rnd.choice([0.3, 0.9, 1])],
                     frames=[dict(est=base["est"], gt=base["gt"])] + [(lambda b: dict(est=b["est"], gt=b["gt"]))(ap.gen_scene(rnd)) for _ in range(rnd.randint(1, 2))])
         try:
             why = check_scene_pooled(case)
